@@ -47,8 +47,8 @@ type RAccess struct {
 }
 
 type RaceEngine struct {
-	capAlloc map[FieldKey]*ssa.Alloc
-	capCells map[ssa.Value]FieldKey
+	capAlloc     map[FieldKey]*ssa.Alloc
+	capCells     map[ssa.Value]FieldKey
 	lingerMemo   map[*Role]bool
 	distinctMemo map[FieldKey]bool
 	Why          map[FieldKey]map[string]int // per field: how many access pairs each mechanism ordered
